@@ -455,6 +455,17 @@ macro_rules! impl_scope_ops {
                     let b = c.to_bytes_with_nul();
                     (v(NonNull::new(b.as_ptr() as *mut u8).unwrap()), b.len(), b.to_vec())
                 }),
+                "cstr" => {
+                    let c = std::ffi::CString::new(text.clone()).unwrap();
+                    value_call!(self, via, try_alloc_cstr, alloc_cstr, (&c), |c: &std::ffi::CStr| {
+                        let b = c.to_bytes_with_nul();
+                        (v(NonNull::new(b.as_ptr() as *mut u8).unwrap()), b.len(), b.to_vec())
+                    })
+                }
+                "uninit_for_u16" => value_call!(self, via, try_alloc_uninit_slice_for, alloc_uninit_slice_for, (&vec![0u16; n][..]), |b: bump_scope::BumpBox<'_, [std::mem::MaybeUninit<u16>]>| {
+                    let (a, l, _) = boxed_out(b);
+                    (a, l, Vec::new())
+                }),
                 "uninit_u64" => value_call!(self, via, try_alloc_uninit, alloc_uninit, (), |b: bump_scope::BumpBox<'_, std::mem::MaybeUninit<u64>>| {
                     let (a, l, _) = boxed_out(b);
                     (a, l, Vec::new())
